@@ -47,7 +47,8 @@ MANIFEST = {
             'the standard dimensions, whose NCOLS/NROWS/NLAYS equal the '
             'dimension lengths, whose VGLVLS has NLAYS+1 entries, whose '
             'SDATE/STIME equal the first time flag and whose TSTEP dimension '
-            'is unlimited.',
+            'is unlimited.'
+            ' Also: copy(data=False), index lists/steps over TSTEP and LAY, length-preserving callables along TSTEP.',
     'note': 'Trusted: z3, symdatetime, real numpy. Structures bounded; '
             'operation pairs are not enumerated (induction over the coherent '
             'family).',
